@@ -723,6 +723,7 @@ def check_block(fx, R, C, cname, f, k, dim, blk):
         if s['k'] == 'For':
             cl = classify_for(C, s)
             if cl[0] == '?':
+                state['opaque'] = True            # a loop this rule cannot classify may be the blanking loop: its absence is then not established
                 R.undecided('O3', inst, '%s at %s' % (cl[1], fx.rel(s['loc'])))
                 return
             if cl[0] == 'd':
@@ -835,6 +836,8 @@ def check_block(fx, R, C, cname, f, k, dim, blk):
     for sg, word in (('+', 'positive'), ('-', 'negative')):
         if sg in signs:
             R.holds('O3', '%s:%s' % (inst, word), 'loop at %s runs |d| times iff d is %s' % (fx.rel(signs[sg][0]), word), fx.rel(signs[sg][0]), 'E-ORD')
+        elif state.get('opaque'):
+            R.undecided('O3', '%s:%s' % (inst, word), 'no recognised blanking loop for a %s offset along axis %d, but the block contains a loop this rule could not classify' % (word, k))
         else:
             other = signs.get('+' if sg == '-' else '-', [])
             R.violated('O3', '%s:%s' % (inst, word),
